@@ -212,6 +212,8 @@ def h_sample(ctx, name, variant, role):
     obs = []
     if role == "in":
         obs += SC.node_obs("rt", out, sym)
+        # converting is not consuming: a second serialisation of the same entity gives the same stanza
+        obs += [(l.replace("rt", "rt(second serialisation)", 1), o) for l, o in SC.node_obs("rt", ent.toProtocolTreeNode(), sym)]
     else:
         obs += SC.codec_contract_obs("codec", out)
         if not H.sym(ctx):
@@ -342,6 +344,20 @@ def _media_stanza(ctx, kind, which):
         Q = C.Message() if H.sym(ctx) else e2e.Message()
         Q.ParseFromString(pc.data)
         obs += c10.proto_obs("payload", P, Q)
+    # the application edits the entity it was handed through its documented setters (a forwarded image with a new link / caption) and
+    # serialises it again: the stanza carries the new value
+    ent = up[0]
+    for field in (("url", "caption") if kind in ("image", "audio", "video", "document", "sticker") else ()):
+        prop = getattr(type(ent), field, None)
+        if isinstance(prop, property) and prop.fset is not None:
+            new = H.zstr(ctx, "edited_" + field)
+            setattr(ent, field, new)
+            pc2 = ent.toProtocolTreeNode().getChild("proto")
+            Q2 = C.Message() if H.sym(ctx) else e2e.Message()
+            Q2.ParseFromString(pc2.data)
+            sub = getattr(Q2, e2e_ref.KIND_FIELD[kind])
+            obs.append(("after an edit through the entity's setter the next serialisation carries the new %s" % field, c10.val_eq(getattr(sub, field), new)))
+            break
     return obs
 
 
